@@ -72,7 +72,15 @@ class NotEqualConstant(Logic):
         
         eq = self.wire('eq')
         EqualConstant(self, 'eq', a, v, eq)
-        Not(self, 'r', eq, r)
+        
+        if (r.getWidth() == 1):
+            Not(self, 'r', eq, r)
+        else:
+            # invert on one bit: Not would fill the upper bits of r with ones
+            from .bitwise import Buf
+            neq = self.wire('neq')
+            Not(self, 'neq', eq, neq)
+            Buf(self, 'r', neq, r)
                 
 class EqualConstant(Logic):
     def __init__(self, parent, name: str, a: Wire, v: int, r: Wire):
